@@ -11,7 +11,7 @@
  * what the certificate factory put INTO each certificate from <pki>/kinds.tsv; it never looks at
  * the certificates themselves nor at the implementation's state.
  *
- * params: tp=tls|btls|utls  part=core|strict|mixed|trust|trustdeep|crlv|invalid|full|x1|x2|cover|nocert
+ * params: tp=tls|btls|utls  part=core|strict|mixed|trust|trustdeep|crlv|invalid|full|x1|x2|cover|cover2|nocert
  *         pki=<dir of make.py --c09>  menu=<hex io menu, default 0>
  *
  * utls: the socket under test is always the utls one; its peer is a plain tls socket (a utls server
@@ -201,6 +201,7 @@ static void opposite_fill(struct conf *s, const struct pol *p, int smode)
 }
 
 static const char *PLC[] = { "connect", "server", "accept", "override" };
+static const char *NMW[] = { "off", "on+matching-names", "on+non-matching-names", "on-without-names", "on+hostname-in-address" };
 
 /* placement: 0 = policy in the xcm_connect_a map (side under test = client), 1 = on the server
    socket (inherited), 2 = in the xcm_accept_a map, 3 = accept map overriding opposite server values */
@@ -271,7 +272,9 @@ static void build_cell(void)
         if (!strcmp(g_part, "crlv")) {
             pi = 5 + 2 * pick(2, "policy");        /* auth=1, crl=1, time 0/1 */
             cv = 1;
-        } else
+        } else if (!strcmp(g_part, "trust") || deep)
+            pi = 4 + pick(4, "policy");            /* trust anchors only matter with tls.auth on */
+        else
             pi = pick(npol, "policy");
         if (full && pi < 8 && (pi & 1))
             cv = pick(2, "crlset");
@@ -287,7 +290,13 @@ static void build_cell(void)
         p.nm = nm;
         if (core || full || deep || !strcmp(g_part, "strict") || !strcmp(g_part, "crlv"))
             rev = pick(2, "reversed");
-        int kind = pick(g_nkinds, "kind");
+        int kind;
+        if (p.set && !p.auth && !full) {
+            /* with authentication off nothing is demanded of the peer: a few kinds suffice (all of them in `full`) */
+            static const char *FEW[] = { "valid", "untrusted_root", "expired", "wrong_name" };
+            kind = kind_by_name(FEW[pick(4, "kind")]);
+        } else
+            kind = pick(g_nkinds, "kind");
         if (core || deep || !strcmp(g_part, "trust") || !strcmp(g_part, "crlv"))
             pmode = smode = pick(2, "byvalue");
         else if (!strcmp(g_part, "mixed")) {
@@ -303,10 +312,10 @@ static void build_cell(void)
         else if (full)
             strict = pick(2, "peer-strict");
         place(placement, &p, rev, kind, pmode, smode, strict, tv, cv);
-        snprintf(g_desc, sizeof g_desc, "policy %s in the %s map: %s auth=%d check_time=%d check_crl=%d names=%d; roles %s; "
+        snprintf(g_desc, sizeof g_desc, "policy %s in the %s map: %s auth=%d check_time=%d check_crl=%d verify_peer_name=%s; roles %s; "
                  "trust bundle %s, CRL bundle %s, own material by %s; peer credential '%s' by %s, peer %s",
                  p.set ? "set" : "left at defaults", PLC[placement], p.set ? "" : "(defaults)", p.auth, p.time, p.crl,
-                 p.nm, rev ? "reversed" : "natural", TC_FILE[tv], CRL_FILE[cv], smode ? "value" : "file",
+                 NMW[p.nm], rev ? "reversed" : "natural", TC_FILE[tv], CRL_FILE[cv], smode ? "value" : "file",
                  g_kinds[kind].name, pmode ? "value" : "file", strict ? "strict" : "permissive");
     } else if (!strcmp(g_part, "invalid")) {
         /* combinations the documentation forbids, each expressed in one map */
@@ -372,8 +381,8 @@ static void build_cell(void)
         static const char *XK[] = { "valid", "untrusted_root", "expired", "revoked", "wrong_name" };
         int kind = kind_by_name(XK[pick(5, "kind")]);
         peer_fill(&CC, kind, 0, 0);
-        snprintf(g_desc, sizeof g_desc, "server socket auth=%d check_time=%d check_crl=%d names=%d; accept map auth=%d check_time=%d "
-                 "check_crl=%d verify=%d names=%d (-1 = inherit); peer credential '%s'", p.auth, p.time, p.crl, p.nm, AC.auth,
+        snprintf(g_desc, sizeof g_desc, "server socket auth=%d check_time=%d check_crl=%d verify_peer_name=%s; accept map auth=%d check_time=%d "
+                 "check_crl=%d verify=%d names=%d (-1 = not in the map, names 1 = matching, 2 = non-matching); peer credential '%s'", p.auth, p.time, p.crl, NMW[p.nm], AC.auth,
                  AC.time, AC.crl, AC.verify, AC.names, g_kinds[kind].name);
     } else if (!strcmp(g_part, "x2")) {
         /* client policy x server policy, both ends carry the valid credential; both ends are judged */
@@ -397,9 +406,9 @@ static void build_cell(void)
             CC.client = 0;
             if (placement == 1) SC.client = 1; else AC.client = 1;
         }
-        snprintf(g_desc, sizeof g_desc, "client auth=%d check_time=%d check_crl=%d names=%d x server (%s map) auth=%d check_time=%d "
-                 "check_crl=%d names=%d; roles %s; both present the valid credential", pc.auth, pc.time, pc.crl, pc.nm,
-                 PLC[placement], ps.auth, ps.time, ps.crl, ps.nm, rev ? "reversed" : "natural");
+        snprintf(g_desc, sizeof g_desc, "client auth=%d check_time=%d check_crl=%d verify_peer_name=%s x server (%s map) auth=%d check_time=%d "
+                 "check_crl=%d verify_peer_name=%s; roles %s; both present the valid credential", pc.auth, pc.time, pc.crl, NMW[pc.nm],
+                 PLC[placement], ps.auth, ps.time, ps.crl, NMW[ps.nm], rev ? "reversed" : "natural");
     } else if (!strcmp(g_part, "cover")) {
         /* covering subset explored with environment deviations */
         static const int PI[] = { 6, 7, 5, 2 };
@@ -407,12 +416,19 @@ static void build_cell(void)
         struct pol p = POL8(PI[pick(4, "policy")], 0);
         if (p.auth)
             p.nm = pick(3, "names");
-        static const char *XK[] = { "valid", "untrusted_root", "via_inter", "expired", "revoked", "under_revoked_inter",
-                                    "wrong_name", "eku_server" };
-        int kind = kind_by_name(XK[pick(8, "kind")]);
+        int kind = p.auth ? pick(g_nkinds, "kind") : pick(4, "kind");
         place(placement, &p, 0, kind, 0, 0, 0, TC_ROOT, CRL_REVOKING);
-        snprintf(g_desc, sizeof g_desc, "policy in the %s map: auth=%d check_time=%d check_crl=%d names=%d; peer credential '%s'",
-                 PLC[placement], p.auth, p.time, p.crl, p.nm, g_kinds[kind].name);
+        snprintf(g_desc, sizeof g_desc, "policy in the %s map: auth=%d check_time=%d check_crl=%d verify_peer_name=%s; peer credential '%s'",
+                 PLC[placement], p.auth, p.time, p.crl, NMW[p.nm], g_kinds[kind].name);
+    } else if (!strcmp(g_part, "cover2")) {
+        /* a small subset explored with every pair of deviations */
+        static const char *XK[] = { "valid", "expired", "revoked" };
+        int placement = pick(4, "placement");
+        struct pol p = POL8(7, 0);
+        int kind = kind_by_name(XK[pick(3, "kind")]);
+        place(placement, &p, 0, kind, 0, 0, 0, TC_ROOT, CRL_REVOKING);
+        snprintf(g_desc, sizeof g_desc, "policy in the %s map: auth=1 check_time=1 check_crl=1 verify_peer_name=off; peer credential '%s'",
+                 PLC[placement], g_kinds[kind].name);
     } else if (!strcmp(g_part, "nocert")) {
         /* a raw TLS client that presents no certificate at all */
         int placement = 1 + pick(3, "placement");
@@ -1157,7 +1173,7 @@ static void scenario(const char *params)
         snprintf(k, sizeof k, "hang/end=%d/tp=%s", end, g_tp);
         mc_info(k, "the cell did not run to completion (client phase %d, server phase %d). Cell: %.130s", A.phase, B.phase, g_desc);
     }
-    mc_outcome("%s | cli:%s%s cr=%d/%s us=%d snt=%d got=%d err=%s@%s | srv:%s%s cr=%d/%s us=%d snt=%d got=%d err=%s@%s end=%d",
+    mc_outcome("%s | cli:%s:%s cr=%d/%s us=%d snt=%d got=%d err=%s@%s | srv:%s:%s cr=%d/%s us=%d snt=%d got=%d err=%s@%s end=%d",
                g_dims, EN[ea.e], ea.why, A.created, errname(A.create_errno), A.usable, A.sent, A.got, errname(A.err), A.err_call,
                EN[eb.e], eb.why, B.created, errname(g_server_errno ? g_server_errno : B.create_errno), B.usable, B.sent, B.got,
                errname(B.err), B.err_call, end);
